@@ -296,8 +296,42 @@ def judge(case) -> Outcome:
     return out
 
 
+# ------------------------------------------------------------------ single records (a mapping of scalars)
+
+
+def enum_records(tier: str):
+    for extra in ({}, {"A": "y"}, {"b": True}, {"A": "y", "b": False}, {"A": "y", "B": "k", "b": True}):
+        for nums in ({"a": 2.5, "i": 7}, {"a": -1.0, "i": 0}, {"a": 3, "i": 2 ** 40}):
+            for output in ("pandas", "numpy", "sparse"):
+                yield {"record": {**extra, **nums}, "output": output}
+
+
+def judge_record(case) -> Outcome:
+    from formulaic import model_matrix
+
+    out = Outcome()
+    rec = case["record"]
+    out.sig = (tuple(sorted((k, type(v).__name__) for k, v in rec.items())), case["output"])
+    tag = f"record {rec} out={case['output']}"
+    try:
+        with quiet():
+            mm = model_matrix("0 + a + i", dict(rec), output=case["output"], context={})
+        M, names = dense(mm), colnames(mm)
+        if names != ["a", "i"] or M.shape != (1, 2) or not np.allclose(M[0], [float(rec["a"]), float(rec["i"])]):
+            out.fail("c08.numeric_not_passed_through", f"{tag}: '0 + a + i' gives columns {names} values {M.tolist()} (the numbers of a record pass through unchanged)")
+        if "A" in rec:
+            with quiet():
+                mt = model_matrix("0 + A + a", dict(rec), output=case["output"], context={})
+            if colnames(mt) != [f"A[{rec['A']}]", "a"] or not np.allclose(dense(mt)[0], [1.0, float(rec["a"])]):
+                out.fail("c08.levels", f"{tag}: '0 + A + a' gives columns {colnames(mt)} values {dense(mt).tolist()}")
+    except Exception as e:  # noqa: BLE001
+        out.fail("c08.materialization_raised", f"{tag}: {type(e).__name__}: {str(e)[:200]}")
+    return out
+
+
 PINNED = []
 SUBS = {
+    "records": Sub(judge=judge_record, enum=enum_records, min_decided=40),
     "grid": Sub(judge=judge, enum=enum_grid, min_decided=600),
     "random_levels": Sub(judge=judge, gen=gen_random, quick=6000, thorough=100_000, min_decided=300),
 }
